@@ -198,3 +198,7 @@ Fixpoint form_lookup (name : string) (t : list (string * option err)) : option (
   match t with [] => None | (n, e) :: r => if String.eqb n name then Some e else form_lookup name r end.
 Definition chk_form (name : string) (impl : option err) : bool :=
   match form_lookup name form_policy with Some e => err_eqb e impl | None => false end.
+
+(* the coordinate array a range sampler returns, against numpy.linspace evaluated in binary64: bit for bit, so that the
+   first point is the requested minimum, the last point the requested maximum, and every interior point the documented one *)
+Definition chk_linspace_F (n : Z) (a b : fbits) (xs : list fbits) : bool := same (linspace_F n (F a) (F b)) xs.
